@@ -403,7 +403,7 @@ func (g *G) boolExpr(d int) *m.E {
 	case 0:
 		return g.leaf(TBool)
 	case 1:
-		ty := pickS(g, "eqty", []Ty{TInt, TStr, TBool, TNull})
+		ty := pickS(g, "eqty", []Ty{TInt, TStr, TBool, TNull, TArrInt, TArrStr, THash1, TInt, TStr})
 		return m.EBin(pickS(g, "eq", []string{"==", "!="}), g.Expr(ty, d-1), g.Expr(ty, d-1))
 	case 2:
 		return m.EBin(pickS(g, "cmp", []string{"<", "<=", ">", ">="}), g.Expr(TNum, d-1), g.Expr(TNum, d-1))
